@@ -210,4 +210,48 @@ theorem not_settled_of_headAdmissible {k : Key} (h : headAdmissible k = true) : 
     · rw [hw] at h1; injection h1 with h1 _; rw [← h1] at h2; rw [h.2] at h2; simp at h2
     · rw [h.1] at h1; simp at h1
 
+/-- grants from the queue are made strictly at its head -/
+theorem wakeIter_head {db db' : DB} {k k' : Key} {r : Reply} (h : wakeIter db k = some (db', k', r)) :
+    ∃ w rest, k.waiters = w :: rest ∧ k'.waiters = rest ∧ r.req = w.cmd.req ∧ r.conn = w.conn ∧ r.result = RESULT_SUCCED := by
+  unfold wakeIter at h
+  cases hw : k.waiters with
+  | nil => simp [hw] at h
+  | cons w rest =>
+    refine ⟨w, rest, rfl, ?_⟩
+    simp only [hw] at h
+    by_cases hd : doLock k w.cmd = true
+    · simp only [hd, Bool.not_true, Bool.false_eq_true, if_false] at h
+      by_cases he : w.cmd.expried > 0
+      · simp only [he, if_true] at h
+        injection h with h; injection h with h1 h2; injection h2 with h2 h3
+        obtain ⟨hh, _, _, _, _, hw', _, _⟩ := grantHold_holders
+          { db with ctr := { db.ctr with waitCount := db.ctr.waitCount - 1 } } { k with waiters := rest } { w.cmd with conn := w.conn }
+        rw [← h2, ← h3, hw']
+        exact ⟨rfl, rfl, rfl, rfl⟩
+      · simp only [he, if_false] at h
+        injection h with h; injection h with h1 h2; injection h2 with h2 h3
+        rw [← h2, ← h3]
+        exact ⟨rfl, rfl, rfl, rfl⟩
+    · simp [hd] at h
+
+/-- a wake pass only appends replies -/
+theorem wakePass_out (fuel : Nat) (db : DB) (k : Key) (out : List Reply) :
+    ∃ more, (wakePass fuel db k out).2.2 = out ++ more := by
+  induction fuel generalizing db k out with
+  | zero => unfold wakePass; split <;> exact ⟨[], by simp⟩
+  | succ n ih =>
+    unfold wakePass
+    split
+    · exact ⟨[], by simp⟩
+    · cases hw : wakeIter db k with
+      | none => simp only []; split <;> exact ⟨[], by simp⟩
+      | some t =>
+        obtain ⟨db', k', r⟩ := t
+        simp only []
+        obtain ⟨more, hm⟩ := ih db' k' (out ++ [r])
+        exact ⟨r :: more, by rw [hm]; simp⟩
+
+theorem wake_out (db : DB) (k : Key) (out : List Reply) : ∃ more, (wake db k out).2.2 = out ++ more :=
+  wakePass_out _ db k out
+
 end Slock.Engine
